@@ -233,7 +233,12 @@ def run_property(pid, res, proofs_ok, proofs_why, only=None):
     model = c.run_model(lines + outside)
     impl_dbg = c.run_lines(c.build_harness("debug")[0], lines + outside)
     impl_rel = c.run_lines(c.build_harness("release")[0], lines)
-    res.evaluations = 2 * len(lines) + len(outside)
+    # the C library (release libclockbound.so), one context for the whole chunk of cases; only cases
+    # in the range of the statement (outside it the library may abort, which would lose the rest)
+    from props import _files
+    c_idx = [i for i, ln in enumerate(lines) if in_range(parse_case(ln))]
+    c_out = dict(zip(c_idx, c.run_lines(_files.build_c_driver(), [lines[i] for i in c_idx], args=())))
+    res.evaluations = 2 * len(lines) + len(outside) + len(c_idx)
     proj, pred = PROJ[pid], PRED[pid]
     diffs, bad = [], []
     kinds = {}
@@ -245,7 +250,9 @@ def run_property(pid, res, proofs_ok, proofs_why, only=None):
         if near or tag in ("pair0", "pair1", "edge", "near-integer"):
             res.nontriv(line)
         rm = parse_result(model[i])
-        for prof, impl in (("debug", impl_dbg), ("release", impl_rel)):
+        for prof, impl in (("debug", impl_dbg), ("release", impl_rel), ("C library", c_out)):
+            if prof == "C library" and i not in c_out:
+                continue
             ri = parse_result(impl[i])
             if prof == "debug":
                 kinds[ri["kind"]] = kinds.get(ri["kind"], 0) + 1
@@ -260,7 +267,7 @@ def run_property(pid, res, proofs_ok, proofs_why, only=None):
             why = pred(k, ri)
             if why:
                 bad.append({"case": line, "profile": prof, "impl": impl[i], "model": model[i], "why": why})
-            if tag == "pair1" and pid == "C05":
+            if tag == "pair1" and pid == "C05" and (prof != "C library" or (i - 1) in c_out):
                 k0 = parse_case(lines[i - 1])
                 why = pred_pair(k0, parse_result(impl[i - 1]), k, ri)
                 if why:
@@ -275,10 +282,10 @@ def run_property(pid, res, proofs_ok, proofs_why, only=None):
         res.count("outcome:" + kd, v)
     res.samples = [{"case": lines[i], "impl": impl_dbg[i], "model": model[i]} for i in range(0, len(lines), max(1, len(lines) // 6))][:6]
     res.traces_validated = res.evaluations - len(diffs)
-    res.oblige("correspondence:compute_bound_at[%s-projection,debug+release,shm+client]" % pid, not diffs)
+    res.oblige("correspondence:compute_bound_at[%s-projection,debug+release,shm+client+C library]" % pid, not diffs)
     res.trusted_base.append("virtual clock = clock_gettime defined by the harness binary (captures clock_gettime_safe)")
     res.trusted_base.append("Flocq 4.1 binary_float 53 1024 as the meaning of rustc f64 arithmetic (compared bit for bit here)")
-    res.extra["profiles"] = ["debug (overflow checks on)", "release"]
+    res.extra["profiles"] = ["debug (overflow checks on)", "release", "C library (release libclockbound.so through clockbound.h, one context per 1500 cases)"]
     if bad:
         res.violation({"property": pid, "kind": "input", "case": bad[0], "others": bad[1:5],
                        "predicate": "clauses of %s evaluated on the implementation's output (lib/props/_client.py)" % pid,
